@@ -377,7 +377,10 @@ func (r *RowCache) Update(uuid string, m model.Model, checkIndexes bool) (model.
 			}
 		}
 		for k, v := range removeIndexes[index] {
-			if indexSpec.isSchemaIndex() || substractUUIDSet(r.indexes[index][k], v).empty() {
+			// only remove the index if it is pointing to this uuid
+			// otherwise we can cause a consistency issue if we've processed
+			// updates out of order
+			if substractUUIDSet(r.indexes[index][k], v).empty() {
 				delete(r.indexes[index], k)
 			}
 		}
